@@ -34,6 +34,11 @@ struct Params {
     screening: bool,
     /// an ant system (ants, iterations) run to completion inside a scope at the end of every pass of the outer colony
     nested: Option<(usize, u32)>,
+    /// the colony takes over a population of this many random tours instead of an empty one
+    prefill: Option<u32>,
+    /// the pheromone update is the first step of the pass (it then works on the tours of the previous pass, and on an
+    /// empty population in the first pass: it still evaporates)
+    update_first: bool,
 }
 
 #[derive(Default)]
@@ -63,7 +68,7 @@ fn matrix(state: &State<P>, n: usize) -> Vec<Vec<f64>> {
 /// Parameters of the colony nested in the scope (an ant system on the same instance).
 fn inner_params(prm: &Params) -> Params {
     let (ants, iterations) = prm.nested.unwrap_or((1, 1));
-    Params { ants, iterations, bounds: None, evaporation: 0.5, default_pheromones: 7.0, alpha: 1.0, beta: 1.0, decay: 3.0, nested: None, screening: false, ..prm.clone() }
+    Params { ants, iterations, bounds: None, evaporation: 0.5, default_pheromones: 7.0, alpha: 1.0, beta: 1.0, decay: 3.0, nested: None, screening: false, prefill: None, update_first: false, ..prm.clone() }
 }
 
 fn observe(recs: &Mutex<Recs>, outer_prm: &Params, ev: StepEvent<'_, P>, problem: &P, state: &State<P>) {
@@ -255,12 +260,20 @@ fn build(prm: &Params) -> Result<Configuration<P>, String> {
         ])
     });
     let screening = prm.screening;
+    let start: Box<dyn mahf::Component<P>> = match prm.prefill {
+        Some(k) => initialization::RandomPermutation::new(k),
+        None => initialization::Empty::new(),
+    };
+    let update_first = prm.update_first;
     Ok(Configuration::builder()
-        .do_(initialization::Empty::new())
+        .do_(start)
         .while_(LessThanN::iterations(prm.iterations), |b| {
+            let b = if update_first { b.do_(update.clone()) } else { b };
             let b = b.do_(generative::AcoGeneration::new(prm.ants, prm.alpha, prm.beta, prm.default_pheromones));
             let b = if screening { b.evaluate_with::<mahf::identifier::A>() } else { b };
-            b.evaluate().update_best_individual().do_(update).do_if_some_(nested)
+            let b = b.evaluate().update_best_individual();
+            let b = if update_first { b } else { b.do_(update) };
+            b.do_if_some_(nested)
         })
         .build())
 }
@@ -339,7 +352,15 @@ fn main() {
             via_template: k % 3 == 0,
             screening: k % 3 != 0 && rng.chance(0.3),
             nested: if k % 3 != 0 && rng.chance(0.25) { Some((1 + rng.usize(3), 1 + rng.below(3) as u32)) } else { None },
+            prefill: if k % 3 != 0 && rng.chance(0.2) { Some(10 + rng.below(6) as u32) } else { None },
+            update_first: false,
         });
+        // (the update as the first step: only for the ant system and without a prefilled population - the tours it rewards
+        // must be evaluated, and the max-min update has nothing to reward in the first pass)
+        let last = cells.last_mut().unwrap();
+        if k % 3 != 0 && last.bounds.is_none() && last.prefill.is_none() && last.nested.is_none() && k % 5 == 1 {
+            last.update_first = true;
+        }
     }
     std::thread::scope(|s| {
         for range in mv::shards(cells.len(), num_workers()) {
